@@ -38,6 +38,8 @@ def run(ctx):
   rule_u2f(ctx)
   rule_accum(ctx)
   rule_weight(ctx)
+  rule_extract(ctx)
+  ctx.expect("R-C08-EXTRACT", 2, "HiddenNumberProblem and Cr50U2fGuesses")
   ctx.expect("R-C08-WEIGHT", 2, "two bias families with constant ladders")
   ctx.expect("R-C08-ACCUM", 2, "BiasedBaseCheck and CheckCr50U2f")
   # "signatures of other issuers in the same batch keep their own verdict": every signature gets an entry created for it alone (shared with C16)
@@ -735,3 +737,74 @@ def rule_weight(ctx):
         if sorted(set(got)) != [want] and bad is None:
           bad = "with %d samples the default weight is %s, the validated ladder has 2^%d" % (m, " / ".join("2^%d" % g for g in sorted(set(got))) or "not a constant", want)
     ctx.record(R, f.where, "default weight by sample count (%s)" % gname, bad is None, bad or "step function agrees with the validated ladder on 1..40 samples (%d evaluations)" % n_eval)
+
+
+# ------------------------------------------------------------------ EXTRACT (from a reduced lattice row / a (k1, k2) pair to a key guess)
+def rule_extract(ctx):
+  """HiddenNumberProblem: every reduced row v with v[0] != 0 (mod n) yields the guess v[1] * v[0]^-1 mod n, and all guesses are returned.
+  Cr50U2fGuesses: from s1 k1 = z1 + r1 x and s2 k2 = z2 + r2 x: the sub-problem is asked for k1 (r2 s1) + k2 (-r1 s2) = r2 z1 - r1 z2 (mod n), and each
+  pair gives x = (s1 k1 - z1) r1^-1 mod n.  These are the two places where 'the correct private key' is computed from the lattice output."""
+  R = "R-C08-EXTRACT"
+  repo = ctx.repo
+  from .ecsym import mod_strip
+  # ---- HiddenNumberProblem
+  f = repo.func("hidden_number_problem", "HiddenNumberProblem")
+  w = sym.Walker(repo, f)
+  w.run()
+  n = P("param", "n")
+  probs = []
+  loops = [i_ for i_ in w.loop_info.values() if i_["visits"] and isinstance(i_["visits"][0]["iter"], Poly) and "lll:reduce" in repr(i_["visits"][0]["iter"])[:40]]
+  if len(loops) != 1:
+    probs.append("no loop over the reduced lattice")
+  else:
+    info = loops[0]
+    vis = info["visits"][0]
+    red = as_poly(vis["iter"])
+    ra = red.as_atom()
+    la = as_poly(ra.args[1]).as_atom() if ra is not None and len(ra.args) > 1 else None
+    if la is None or la.kind != "call" or not repr(la.args[0]).endswith(":GetLattice')") or [repr(as_poly(x)) for x in la.args[1:5]] != ["param('a')", "param('b')", "param('w')", "param('n')"]:
+      probs.append("the lattice reduced is not GetLattice(a, b, w, n, bias)")
+    v = sym.mk("idx", red, as_poly(vis["k"]))
+    v0, v1 = sym.mk("idx", v, Poly.const(0)), sym.mk("idx", v, Poly.const(1))
+    want = sym.mk("mod", v1 * sym.mk("invert", v0, n), n)
+    adds = [e for e in w.events if e.kind == "mutate" and e.data["method"] == "add" and e.data["args"]]
+    if not adds or not all(isinstance(e.data["args"][0], Poly) and e.data["args"][0] == want for e in adds):
+      probs.append("a guess is not v[1] * v[0]^-1 mod n")
+    for kind, val, s_, since, v_ in info["body_paths"]:
+      if kind not in ("fall", "continue"):
+        probs.append("the loop over the reduced rows is left by %s" % kind)
+        continue
+      newf = s_.facts[len(vis["head"].facts):]
+      nz = any(fc[0] == "cmp" and fc[1] == "NotEq" and isinstance(fc[2], Poly) and fc[2] == sym.mk("mod", v0, n) and as_poly(fc[3]).is_zero() for fc in newf)
+      added = any(w.events[i_].kind == "mutate" and w.events[i_].data["method"] == "add" for i_ in s_.trace[since:])
+      if nz != added:
+        probs.append("a row is used exactly when v[0] % n != 0 - this path %s" % ("skips a usable row" if nz else "inverts a row with v[0] == 0 (mod n)"))
+    rets = [t_ for t_ in w.terminals if t_[0] == "return"]
+    acc = [nm for nm, av in vis["after_env"].items() if isinstance(av, Poly) and adds and isinstance(vis["head"].env.get(nm), Poly) and as_poly(adds[0].data["recv"]) == vis["head"].env[nm]]
+    if not acc or not all(isinstance(t_[1], Poly) and vis["after_env"][acc[0]] in [t_[1]] + [as_poly(x) for a_ in t_[1].all_atoms() for x in a_.args if isinstance(x, Poly)] for t_ in rets):
+      probs.append("the collected guesses are not what is returned")
+  ctx.record(R, f.where, "guess = v[1] * v[0]^-1 mod n for every usable row", not probs, "; ".join(sorted(set(probs))) or "all rows with v[0] != 0 (mod n), all guesses returned")
+  # ---- Cr50U2fGuesses
+  f = repo.func("cr50_u2f_weakness", "Cr50U2fGuesses")
+  w = sym.Walker(repo, f)
+  w.run()
+  r1, s1, z1, r2, s2, z2, n = [P("param", x) for x in f.params()[:7]]
+  probs = []
+  calls = [e for e in w.events if e.kind == "call" and e.data["name"].endswith(":Cr50U2fSubProblem") and len(e.data["args"]) >= 4]
+  if not calls:
+    probs.append("the sub-problem is never posed")
+  for e in calls:
+    a_, b_, w_ = [mod_strip(as_poly(x), n) for x in e.data["args"][:3]]
+    if not ((a_ - r2 * s1).is_zero() and (b_ + r1 * s2).is_zero() and (w_ - (r2 * z1 - r1 * z2)).is_zero() and as_poly(e.data["args"][3]) == n):
+      probs.append("the sub-problem is not k1 * (r2 s1) + k2 * (-r1 s2) == r2 z1 - r1 z2 (mod n)")
+  for info in w.loop_info.values():
+    for vis in info["visits"]:
+      if not (isinstance(vis["iter"], Poly) and calls and vis["iter"] == as_poly(calls[0].data["value"])):
+        continue
+      el = sym.mk("idx", as_poly(vis["iter"]), as_poly(vis["k"]))
+      k1 = sym.mk("idx", el, Poly.const(0))
+      want = sym.mk("mod", (s1 * k1 - z1) * sym.mk("invert", r1, n), n)
+      adds = [e for e in w.events if e.kind == "mutate" and e.data["method"] == "add" and e.data["args"]]
+      if not adds or not all(isinstance(e.data["args"][0], Poly) and e.data["args"][0] == want for e in adds):
+        probs.append("the key guess is not (s1 * k1 - z1) * r1^-1 mod n")
+  ctx.record(R, f.where, "sub-problem coefficients and key from k1", not probs, "; ".join(sorted(set(probs))) or "a = r2 s1, b = -r1 s2, w = r2 z1 - r1 z2 (mod n); x = (s1 k1 - z1) / r1 mod n")
